@@ -122,6 +122,13 @@ func (s *StateMachine) ValidateGenesisState(genesis *GenesisState) (err lib.Erro
 		if found := deDuplicateValidators.Found(lib.BytesToString(val.Address)); found {
 			return lib.ErrInvalidAddress()
 		}
+		// ensure the validator lists each committee once (its stake is added to a committee's tally per entry)
+		deDuplicateCommittees := lib.NewDeDuplicator[uint64]()
+		for _, committee := range val.Committees {
+			if found := deDuplicateCommittees.Found(committee); found {
+				return ErrInvalidNumCommittees()
+			}
+		}
 		// ensure the validator public key is the proper length
 		if !val.Delegate && len(val.PublicKey) != crypto.BLS12381PubKeySize {
 			return ErrPublicKeySize()
